@@ -375,12 +375,6 @@ class NestedChildren(WrappingQuery):
             # (the child matcher's blocks are blocks of parents)
             return False
 
-        def skip_to(self, id):
-            # (self.child is the matcher of the wanted parents, which is already
-            # one parent ahead: step through the children)
-            while self.is_active() and self.id() < id:
-                self.next()
-
         def replace(self, minquality=0):
             return self
 
@@ -477,6 +471,10 @@ class NestedChildren(WrappingQuery):
                     # Reestablish for the next child after the next matching
                     # parent
                     self._find_next_children()
+                    # (the children of the parent before the target start
+                    # before the target)
+                    while self.is_active() and self.id() < docid:
+                        self.next()
             else:
                 self._nextchild = self._nextparent = self.limit
 
